@@ -1011,6 +1011,12 @@ def mut_views(fns, src, nmax, name=None):
             else:
                 S = Arr('A', N)
                 arg = ArrRef(S)
+            ex.consts.pop('K', None)
+            if short == 'split':      # Split<T, K>: K <= N is the trait's type-level precondition (Diff<N, K> exists)
+                Ksym = mkint('K')
+                st.pc.append(ULE(Ksym, N))
+                ex.consts['K'] = Ksym
+            in_source = short in ('split', 'flatten', 'unflatten', 'from', 'as_mut', 'as_mut_slice', 'deref_mut', 'borrow_mut', 'from_mut_slice', 'try_from_mut_slice', 'try_from')
             try:
                 n_before = len(ex.found)
                 for (s2, kind, val) in ex.run_fn(st, fn, [arg]):
@@ -1018,8 +1024,19 @@ def mut_views(fns, src, nmax, name=None):
                     unw += kind == 'unwind'
                     if kind != 'ret':
                         continue
-                    for pv in ptr_leaves(val):
+                    leaves = list(ptr_leaves(val))
+                    for pv in leaves:
                         ex.require(s2, z3.BoolVal(pv.prov != 'shared'), 'mutable view returned whose pointer was derived through a shared borrow (writes through it are undefined behaviour)', short)
+                        if in_source:
+                            ex.require(s2, z3.BoolVal(pv.arr is S), 'mutable view returned that does not point into the source storage (also when it is empty)', short)
+                    if short == 'split' and len(leaves) == 2 and all(isinstance(x, (ElemPtr, ArrRef)) for x in leaves):
+                        head, tail = leaves
+                        hi = bv(0) if isinstance(head, ArrRef) else head.idx
+                        ti = bv(0) if isinstance(tail, ArrRef) else tail.idx
+                        Kc = ex.consts.get('K')
+                        ex.require(s2, hi == 0, 'split: the head does not start at the source', short)
+                        if Kc is not None:
+                            ex.require(s2, ti == Kc, 'split: the tail does not start right behind the K-element head', short)
                 done.append(short)
             except (NotImplementedError, Inconclusive, KeyError, AttributeError, TypeError) as e:
                 skipped.append('%s (%s)' % (short, str(e)[:80]))
